@@ -68,6 +68,9 @@ def strategy_case(draw):
     if draw(st.floats(0, 1)) < 0.35:
         case["init_R"] = draw(gen.ranks(d, 5, rank1_bias=0.1))
         case["init_seed"] = draw(gen.SEED)
+    elif draw(st.floats(0, 1)) < 0.15:
+        # the second operand itself is handed in as initial guess (a natural warm start when the shapes agree)
+        case["init_is_operand"] = True
     return case
 
 
@@ -143,6 +146,11 @@ def execute(case):
         if outM is not None:
             ispec["M"] = outM
         init = T.TT(core.make_cores(ispec))
+    if case.get("init_is_operand") and init is None:
+        if routine in ("dmrg_hadamard",) or (routine in ("fast_matvec", "amen_mv") and case["M"] == case["N"]) or \
+                (routine == "amen_mm" and case["M"] == case["N"] == case["K"]):
+            init = b
+            ck.label("initial_guess_is_operand")
     nref = fro(ref)
     if nref == 0:
         ck.label("zero_product_skipped")
